@@ -187,6 +187,11 @@ def scenarios(ctx):
                        sub_shapes=('str',), unsub_shapes=('str',), windows=(1, 2),
                        budgets=dict(sub=2, unsub=1, ack=2, tick=1, lose=1 if q else 2, rebuild=1 if q else 2,
                                     connect=1 if q else 2, connack=1 if q else 2, setwin=1)))
+    # subscribe() called from the callback of connect() of a resumed session with requests carried over
+    out.append(Std('sub-reenter-connected', profile='sub', init=(('connect', 0, False, 0, 4), ('connack', 0, 0, False), ('setwin', 0, 2)),
+                   connects=[(False, 0, 4)], reconnects=[(False, 0, 4)], sub_shapes=('str',), unsub_shapes=('str',),
+                   reenter=('ok:connect@1>sub', 'ok:connect@1>unsub'), windows=(1, 2),
+                   budgets=dict(sub=2, unsub=1, ack=2, lose=1, rebuild=1, connect=1, connack=1, setwin=1)))
     out.append(Std('pubsub-loss-v31', profile='pubsub', mode='async',
                    init=(('connect', 0, False, 0, 3), ('connack', 0, 0, False)),
                    connects=[(False, 0, 3)], reconnects=[(False, 0, 3)],
